@@ -81,7 +81,7 @@ fn attach_payload(rng: &mut Rng, kind: Kind, req: &mut IppRequestResponse, paylo
         1 => Fallback::Chunk(rng.range(1, 100)),
         _ => Fallback::Chunk(rng.range(100, 70_000)),
     };
-    let plan = SrcPlan { steps, fallback, fail_at: None, thread_wake: true };
+    let plan = SrcPlan { steps, fallback, fail_at: None, fail_once: false, thread_wake: true };
     let (src, _) = Scripted::new(data, plan);
     if kind == Kind::Async && rng.chance(2, 3) {
         *req.payload_mut() = IppPayload::new_async(src);
